@@ -26,6 +26,8 @@ fn setup(ctx: &mut Ctx) {
     ctx.floor("empty-table", 10);
     ctx.floor("get:index-near-usize-max", 100);
     ctx.floor("shuffled-access", 100);
+    ctx.floor("via:tables-checked", 1000);
+    ctx.floor("via:stream-repeat-or-reorder", 500);
 }
 
 fn strata(t: Tier) -> Vec<Stratum> {
@@ -33,6 +35,9 @@ fn strata(t: Tier) -> Vec<Stratum> {
         // (type, encoding) pairs; each case sweeps every byte length 0..=5*entsize-1
         ex("small-lengths-exhaustive", NTYPES * 4),
         st("random-larger", scale(t, 400_000, 4_000_000, 8)),
+        // the tables and entry iterators both parsers hand out for generated files whose sections are
+        // ragged, overlap or share a start, accessed in random order and repeatedly
+        st("tables-via-parsers", scale(t, 60_000, 600_000, 2)),
     ]
 }
 
@@ -228,8 +233,110 @@ fn entsize_of(ty: u64, enc: Enc) -> usize {
     size_of(st, enc.c64)
 }
 
+/// Entry tables and iterators reached through ElfBytes and ElfStream: whole entries of the designated
+/// range, in order, the same on repeated and re-ordered access.
+fn via_parsers(ctx: &mut Ctx) {
+    use crate::codec::{k, Rec, St};
+    use crate::gen::elf::build;
+    use crate::gen::object::{gen_object, GenOpts};
+    use crate::reference::locator::ref_open;
+    let enc = Enc::ALL[ctx.rng.usize_below(4)];
+    let mut o = GenOpts::standard();
+    o.max_syms = 6;
+    o.density = 6;
+    let (spec, _) = gen_object(&mut ctx.rng, enc, &o);
+    let b = build(&spec, &mut ctx.rng);
+    let data = &b.bytes[..];
+    ctx.set_input(data);
+    let Ok(r) = ref_open(data, &[1, 2]) else { return };
+    let Ok(f) = super::util::open_slice(data) else { return };
+    let Ok(mut st) = super::util::open_stream(data) else { return };
+    ctx.nontrivial_bytes(data);
+    ctx.sample(|| format!("{} object, {} sections", enc.name(), r.shnum()));
+    // REL / RELA sections (incl. views sharing a start with other sections), in a random order, each twice
+    let mut idxs: Vec<usize> = (0..r.shnum()).filter(|i| r.shdr(*i).map(|s| [k::SHT_REL as u64, k::SHT_RELA as u64].contains(&s.get("sh_type"))).unwrap_or(false)).collect();
+    let again = idxs.clone();
+    idxs.extend(again);
+    ctx.rng.shuffle(&mut idxs);
+    for i in idxs {
+        let sh = r.shdr(i).unwrap();
+        let Some((off, len)) = r.sec_range(&sh) else { continue };
+        if sh.get("sh_flags") & k::SHF_COMPRESSED != 0 {
+            continue;
+        }
+        let rela = sh.get("sh_type") == k::SHT_RELA as u64;
+        let stt = if rela { St::Rela } else { St::Rel };
+        let es = size_of(stt, enc.c64);
+        let n = len / es;
+        let want: Vec<String> = (0..n).map(|j| format!("{:?}", crate::reference::structs::expected_fields(&Rec::decode(stt, enc, data, off + j * es).unwrap()))).collect();
+        let hdr_slice = f.section_headers().and_then(|t| t.get(i).ok());
+        let hdr_stream = st.section_headers().get(i).copied();
+        let (Some(hs), Some(ht)) = (hdr_slice, hdr_stream) else { continue };
+        ctx.eval();
+        ctx.count("via:tables-checked");
+        ctx.count("via:stream-repeat-or-reorder");
+        let got_slice: Result<Vec<String>, String> = if rela {
+            f.section_data_as_relas(&hs).map(|it| it.take(n + 3).map(|x| format!("{:?}", x.fields())).collect()).map_err(|e| format!("{e:?}"))
+        } else {
+            f.section_data_as_rels(&hs).map(|it| it.take(n + 3).map(|x| format!("{:?}", x.fields())).collect()).map_err(|e| format!("{e:?}"))
+        };
+        let got_stream: Result<Vec<String>, String> = if rela {
+            st.section_data_as_relas(&ht).map(|it| it.take(n + 3).map(|x| format!("{:?}", x.fields())).collect()).map_err(|e| format!("{e:?}"))
+        } else {
+            st.section_data_as_rels(&ht).map(|it| it.take(n + 3).map(|x| format!("{:?}", x.fields())).collect()).map_err(|e| format!("{e:?}"))
+        };
+        for (who, got) in [("ElfBytes", &got_slice), ("ElfStream", &got_stream)] {
+            if got.as_ref().ok() != Some(&want) {
+                ctx.violation(
+                    &format!("via:{who}:{}:entries", if rela { "relas" } else { "rels" }),
+                    format!("{who}: section {i} [{off:#x},+{len:#x}) has {n} whole entries; the iterator yielded {:?}", got.as_ref().map(|v| v.len()).map_err(|e| e.clone())),
+                );
+                return;
+            }
+        }
+    }
+    // symbol tables through both parsers, twice, with get in shuffled order
+    for _round in 0..2 {
+        for dynsym in [false, true] {
+            let ty = if dynsym { k::SHT_DYNSYM } else { k::SHT_SYMTAB };
+            let Some((_, sh)) = r.first_section_of_type(ty) else { continue };
+            let Some((off, len)) = r.sec_range(&sh) else { continue };
+            let es = size_of(St::Sym, enc.c64);
+            let n = len / es;
+            let a = if dynsym { f.dynamic_symbol_table() } else { f.symbol_table() };
+            let bq = if dynsym { st.dynamic_symbol_table() } else { st.symbol_table() };
+            if let (Ok(Some((ta, _))), Ok(Some((tb, _)))) = (a, bq) {
+                ctx.eval();
+                ctx.count("via:tables-checked");
+                let mut order: Vec<usize> = (0..n).collect();
+                ctx.rng.shuffle(&mut order);
+                let bad = ta.len() != n || tb.len() != n || ta.iter().count() != n || tb.iter().count() != n || ta.get(n).is_ok() || tb.get(n).is_ok();
+                let mut mism = None;
+                for &j in order.iter().take(24) {
+                    let rec = Rec::decode(St::Sym, enc, data, off + j * es).unwrap();
+                    for (who, got) in [("ElfBytes", ta.get(j)), ("ElfStream", tb.get(j))] {
+                        match got {
+                            Ok(sy) => {
+                                if let Some(m) = mismatch(&sy.fields(), &rec) {
+                                    mism = Some(format!("{who} get({j}): {m}"));
+                                }
+                            }
+                            Err(e) => mism = Some(format!("{who} get({j}) failed: {e:?}")),
+                        }
+                    }
+                }
+                if bad || mism.is_some() {
+                    ctx.violation("via:symbol-table:incoherent", format!("symbol table [{off:#x},+{len:#x}) with {n} whole entries: len {}/{}; {:?}", ta.len(), tb.len(), mism));
+                    return;
+                }
+            }
+        }
+    }
+}
+
 fn run(ctx: &mut Ctx, si: usize, case: u64) {
     match si {
+        2 => via_parsers(ctx),
         0 => {
             let ty = case / 4;
             let enc = Enc::ALL[(case % 4) as usize];
